@@ -11,6 +11,8 @@
 #include <thread>
 #include <sys/mman.h>
 #include <sched.h>
+#include <unistd.h>
+extern "C" int memfd_create(const char*, unsigned int);
 
 using Bytes = std::vector<uint8_t>;
 using Digest = std::array<uint8_t, 32>;
@@ -57,20 +59,29 @@ static randomx_cache* sharedCache[2];   // [0] default, [1] JIT - same key
 static randomx_cache* refCache;         // same key, never visible to the worker threads: sequential expectations come from here, so that
                                         // the shared caches can be in the state 'initialised, no VM attached yet' when the threads start
 static randomx_dataset sparseDs;        // sparse: only the generated ranges are ever touched
+static randomx_dataset fastDs;          // shared by the fast-mode VMs: complete, read-only during the workloads. Its content is synthetic (a 64 MiB
+                                        // pseudo-random chunk mapped repeatedly): the oracle is 'equals the sequential result over the same dataset',
+                                        // which does not need real items, and a real 2 GiB initialisation under TSan would cost minutes per process
 static const char KEY[] = "C14 shared key";
 static const int VMFLAGS[] = {0, RANDOMX_FLAG_HARD_AES, RANDOMX_FLAG_JIT, RANDOMX_FLAG_JIT | RANDOMX_FLAG_HARD_AES, RANDOMX_FLAG_JIT | RANDOMX_FLAG_SECURE, RANDOMX_FLAG_JIT | RANDOMX_FLAG_SECURE | RANDOMX_FLAG_HARD_AES,
-	RANDOMX_FLAG_JIT | RANDOMX_FLAG_V2, RANDOMX_FLAG_JIT | RANDOMX_FLAG_HARD_AES | RANDOMX_FLAG_V2, RANDOMX_FLAG_HARD_AES | RANDOMX_FLAG_V2};
-static std::map<std::pair<Bytes, int>, Digest> seqMemo;
-static Digest sequential(const Bytes& in, int v2) {
-	auto k = std::make_pair(in, v2); auto it = seqMemo.find(k); if (it != seqMemo.end()) return it->second;
-	randomx_vm* vm = randomx_create_vm((randomx_flags)(RANDOMX_FLAG_JIT | (v2 ? RANDOMX_FLAG_V2 : 0)), refCache, nullptr);
+	RANDOMX_FLAG_JIT | RANDOMX_FLAG_V2, RANDOMX_FLAG_JIT | RANDOMX_FLAG_HARD_AES | RANDOMX_FLAG_V2, RANDOMX_FLAG_HARD_AES | RANDOMX_FLAG_V2,
+	// fast mode: the thread's own VM reads the shared dataset
+	RANDOMX_FLAG_FULL_MEM | RANDOMX_FLAG_JIT, RANDOMX_FLAG_FULL_MEM | RANDOMX_FLAG_JIT | RANDOMX_FLAG_HARD_AES | RANDOMX_FLAG_V2, RANDOMX_FLAG_FULL_MEM | RANDOMX_FLAG_JIT | RANDOMX_FLAG_SECURE, RANDOMX_FLAG_FULL_MEM, RANDOMX_FLAG_FULL_MEM | RANDOMX_FLAG_HARD_AES | RANDOMX_FLAG_V2};
+static const int NVMFLAGS = sizeof VMFLAGS / sizeof VMFLAGS[0];
+static std::map<std::pair<Bytes, int>, Digest> seqMemo;   // second: v2 | fast << 1
+static int memoKey(int vmFlags) { return ((vmFlags & RANDOMX_FLAG_V2) ? 1 : 0) | ((vmFlags & RANDOMX_FLAG_FULL_MEM) ? 2 : 0); }
+static Digest sequential(const Bytes& in, int mk) {
+	auto k = std::make_pair(in, mk); auto it = seqMemo.find(k); if (it != seqMemo.end()) return it->second;
+	const int v2 = mk & 1;
+	randomx_vm* vm = (mk & 2) ? randomx_create_vm((randomx_flags)(RANDOMX_FLAG_FULL_MEM | (v2 ? RANDOMX_FLAG_V2 : 0)), nullptr, &fastDs)   // interpreter: no code shared with the JIT VMs of the threads
+	                          : randomx_create_vm((randomx_flags)(RANDOMX_FLAG_JIT | (v2 ? RANDOMX_FLAG_V2 : 0)), refCache, nullptr);
 	Digest d; randomx_calculate_hash(vm, in.data(), in.size(), d.data()); randomx_destroy_vm(vm);
 	seqMemo[k] = d; return d;
 }
 
 static std::string body(const WCase& c) {
 	// sequential expectations first (single-threaded)
-	for (auto& in : c.inputs) { sequential(in, 0); sequential(in, 1); }
+	for (auto& in : c.inputs) for (int mk = 0; mk < 4; ++mk) sequential(in, mk);
 	if (c.fresh) for (int i = 0; i < 2; ++i) {
 		randomx_release_cache(sharedCache[i]);
 		sharedCache[i] = randomx_alloc_cache(i ? RANDOMX_FLAG_JIT : RANDOMX_FLAG_DEFAULT);
@@ -91,10 +102,10 @@ static std::string body(const WCase& c) {
 		for (auto& k : c.threads[t]) {
 			if (!errs[t].empty()) break;
 			switch (k.op) {
-			case T_CREATE: { if (vm) { randomx_destroy_vm(vm); vm = nullptr; } vmFlags = VMFLAGS[k.a % 9]; vm = randomx_create_vm((randomx_flags)vmFlags, sharedCache[(vmFlags & RANDOMX_FLAG_JIT) ? 1 : k.b & 1], nullptr); if (!vm) errs[t] = "randomx_create_vm returned NULL in a thread"; break; }
-			case T_HASH: { if (!vm) break; const Bytes& in = c.inputs[k.a % c.inputs.size()]; Digest d; randomx_calculate_hash(vm, in.data(), in.size(), d.data()); if (d != seqMemo[{in, (vmFlags & RANDOMX_FLAG_V2) ? 1 : 0}]) errs[t] = "digest computed concurrently (vm flags " + std::to_string(vmFlags) + ") differs from the sequential result"; break; }
+			case T_CREATE: { if (vm) { randomx_destroy_vm(vm); vm = nullptr; } vmFlags = VMFLAGS[k.a % NVMFLAGS]; vm = (vmFlags & RANDOMX_FLAG_FULL_MEM) ? randomx_create_vm((randomx_flags)vmFlags, nullptr, &fastDs) : randomx_create_vm((randomx_flags)vmFlags, sharedCache[(vmFlags & RANDOMX_FLAG_JIT) ? 1 : k.b & 1], nullptr); if (!vm) errs[t] = "randomx_create_vm returned NULL in a thread"; break; }
+			case T_HASH: { if (!vm) break; const Bytes& in = c.inputs[k.a % c.inputs.size()]; Digest d; randomx_calculate_hash(vm, in.data(), in.size(), d.data()); if (d != seqMemo[{in, memoKey(vmFlags)}]) errs[t] = "digest computed concurrently (vm flags " + std::to_string(vmFlags) + ") differs from the sequential result"; break; }
 			case T_BATCH: { if (!vm) break; const Bytes& a = c.inputs[k.a % c.inputs.size()]; const Bytes& b = c.inputs[k.b % c.inputs.size()]; Digest d0, d1; randomx_calculate_hash_first(vm, a.data(), a.size()); randomx_calculate_hash_next(vm, b.data(), b.size(), d0.data()); randomx_calculate_hash_last(vm, d1.data());
-				int v2 = (vmFlags & RANDOMX_FLAG_V2) ? 1 : 0; if (d0 != seqMemo[{a, v2}] || d1 != seqMemo[{b, v2}]) errs[t] = "batch digests computed concurrently differ from the sequential results"; break; }
+				int mk = memoKey(vmFlags); if (d0 != seqMemo[{a, mk}] || d1 != seqMemo[{b, mk}]) errs[t] = "batch digests computed concurrently differ from the sequential results"; break; }
 			case T_DESTROY: { if (vm) { randomx_destroy_vm(vm); vm = nullptr; } break; }
 			case T_INITDS: { if (dsOps >= 8) break; uint64_t slot = t * 8 + dsOps++; uint64_t start = (slot * 7919 * slotItems) % (N - 2 * slotItems); start = start / slotItems * slotItems + (k.a % 3); uint64_t count = 1 + (uint64_t)k.b % (slotItems - 8);
 				if (k.a % 11 == 0) { start = N - count; }   // one thread may get the end of the dataset
@@ -120,8 +131,10 @@ static std::string body(const WCase& c) {
 	if (vh::st().replaying) return "";
 	// classification
 	std::map<int, int> opThreads; bool hardAesCreators = false; int creators = 0, hardCreators = 0;
-	for (auto& t : c.threads) { bool seen[T_NOPS] = {false}; for (auto& k : t) { seen[k.op] = true; if (k.op == T_CREATE && (VMFLAGS[k.a % 9] & RANDOMX_FLAG_HARD_AES)) seen[T_NOPS - 1] = true; } for (int o = 0; o < T_NOPS - 1; ++o) if (seen[o]) opThreads[o]++; if (seen[T_CREATE]) creators++; if (seen[T_NOPS - 1]) hardCreators++; }
+	for (auto& t : c.threads) { bool seen[T_NOPS] = {false}; for (auto& k : t) { seen[k.op] = true; if (k.op == T_CREATE && (VMFLAGS[k.a % NVMFLAGS] & RANDOMX_FLAG_HARD_AES)) seen[T_NOPS - 1] = true; } for (int o = 0; o < T_NOPS - 1; ++o) if (seen[o]) opThreads[o]++; if (seen[T_CREATE]) creators++; if (seen[T_NOPS - 1]) hardCreators++; }
 	vh::label("threads:" + std::to_string(c.threads.size())); if (c.fresh) vh::label(creators >= 2 ? "fresh-shared-cache:first-attach-concurrent" : "fresh-shared-cache");
+	{ int fastHashers = 0; for (auto& t : c.threads) { bool fast = false, hashed = false; for (auto& k : t) { if (k.op == T_CREATE) fast = (VMFLAGS[k.a % NVMFLAGS] & RANDOMX_FLAG_FULL_MEM) != 0; if ((k.op == T_HASH || k.op == T_BATCH) && fast) hashed = true; } if (hashed) ++fastHashers; }
+	  if (fastHashers >= 2) vh::label("concurrent:fast-mode-hash-over-shared-dataset"); else if (fastHashers == 1) vh::label("fast-mode-hash-alongside"); }
 	if (creators >= 2) vh::label("concurrent:vm-creation"); if (hardCreators >= 2) { vh::label("concurrent:hard-aes-vm-creation"); hardAesCreators = true; }
 	if (opThreads[T_HASH] >= 2) vh::label("concurrent:hash-over-shared-cache"); if (opThreads[T_INITDS] >= 2) vh::label(c.dsJit ? "concurrent:dataset-init(compiled)" : "concurrent:dataset-init(interpreted)");
 	if (opThreads[T_INITDS] >= 1 && opThreads[T_HASH] >= 1) vh::label("concurrent:dataset-init+hash"); if (opThreads[T_OWNCACHE] >= 1) vh::label("private-cache-lifecycle-alongside");
@@ -145,7 +158,7 @@ static rc::Gen<WCase> genWorkload(bool ownCache) {
 		for (auto& t : th) { if (t.size() > 6) t.resize(6); t.insert(t.begin(), Step{T_CREATE, first + (int)(&t - &th[0]), 0}); int owns = 0; for (auto& k : t) if (k.op == T_OWNCACHE && ++owns > 1) k.op = T_YIELD; }
 		c.threads = th;
 		return c;
-	}, gen::container<std::vector<std::vector<Step>>>(gen::container<std::vector<Step>>(stepGen)), gen::container<std::vector<Bytes>>(3, vg::genBytesLen(gen::inRange(0, 80))), gen::inRange(0, 2), gen::inRange(0, 9), gen::inRange(0, 2)));
+	}, gen::container<std::vector<std::vector<Step>>>(gen::container<std::vector<Step>>(stepGen)), gen::container<std::vector<Bytes>>(3, vg::genBytesLen(gen::inRange(0, 80))), gen::inRange(0, 2), gen::inRange(0, NVMFLAGS), gen::inRange(0, 2)));
 }
 
 int main(int argc, char** argv) {
@@ -157,5 +170,13 @@ int main(int argc, char** argv) {
 		refCache = randomx_alloc_cache(RANDOMX_FLAG_JIT); randomx_init_cache(refCache, KEY, sizeof KEY - 1);
 		size_t len = ((size_t)randomx::DatasetSize + 4095) / 4096 * 4096;
 		sparseDs.memory = (uint8_t*)mmap(nullptr, len, PROT_READ | PROT_WRITE, MAP_PRIVATE | MAP_ANONYMOUS | MAP_NORESERVE, -1, 0); sparseDs.dealloc = nullptr;
+		// synthetic complete dataset for the fast-mode VMs
+		const size_t chunk = 64u << 20;
+		int fd = memfd_create("c14synth", 1); if (fd < 0 || ftruncate(fd, chunk) != 0) { perror("memfd"); abort(); }
+		uint8_t* w = (uint8_t*)mmap(nullptr, chunk, PROT_READ | PROT_WRITE, MAP_SHARED, fd, 0); vh::XorShift x(0xC14); x.fill(w, chunk); munmap(w, chunk);
+		uint8_t* base = (uint8_t*)mmap(nullptr, len, PROT_NONE, MAP_PRIVATE | MAP_ANONYMOUS | MAP_NORESERVE, -1, 0);
+		if (base == MAP_FAILED) { perror("mmap"); abort(); }
+		for (size_t off = 0; off < len; off += chunk) if (mmap(base + off, std::min(chunk, len - off), PROT_READ, MAP_SHARED | MAP_FIXED, fd, 0) == MAP_FAILED) { perror("mmap chunk"); abort(); }
+		close(fd); fastDs.memory = base; fastDs.dealloc = nullptr;
 	});
 }
